@@ -259,10 +259,13 @@ class Repo:
 # tag validity / ordering by format
 # ---------------------------------------------------------------------------
 def valid_in(tag, fmt):
+    """a version tag zerv can hold: in the grammar and every number within the format's integer type (C08 / C09: beyond it the tag is refused)"""
     if fmt == "semver":
-        return S.parse(tag, allow_v=True) is not None
+        v = S.parse(tag, allow_v=True)
+        return v is not None and S.representable(v)
     if fmt == "pep440":
-        return P.parse(tag) is not None and tag == tag.strip()
+        v = P.parse(tag)
+        return v is not None and tag == tag.strip() and P.representable(v)
     return valid_in(tag, "semver") or valid_in(tag, "pep440")
 
 
@@ -286,11 +289,19 @@ BOTH = ["%d.%d.%d", "v%d.%d.%d", "%d.%d.%d-rc.1", "%d.%d.%d-alpha.2", "%d.%d.%d+
 SEMVER_ONLY = ["%d.%d.%d-x.y", "%d.%d.%d-0.3.7", "%d.%d.%d-rc-1", "%d.%d.%d--"]
 PEP_ONLY = ["%d.%d", "%d.%da1", "2!%d.%d", "%d.%d.post1", "%d.%d.dev3", "%d.%d.%d.4", "%d.%drc1", "%d.%d.%d.post2.dev1"]
 NONVERSION = ["release-%d", "latest", "v%d.%d.x", "%d.%d.%d-", "build/%d.%d.%d", "nightly_%d", "V%d-%d", "%d..%d"]
+# spellings and sizes at the edges of the two grammars: capital V (PEP 440 only), numbers at / beyond u32 and u64, leading zeros (PEP 440 only),
+# PEP 440 alternative separators and labels, a single number
+EDGE = ["V%d.%d.%d", "%d.%d.4294967295", "%d.%d.4294967296", "%d.%d.18446744073709551615", "%d.%d.18446744073709551616", "0%d.%d.%d", "%d.0%d.%d",
+        "%d.%d.%d-RC.1", "%d.%d-%d", "%d.%d.%d.RC1", "%d.%d.%d_alpha_1", "%d.%d.%d-rc.01", "v%d", "%d", "%d.%d.%d+4294967296", "%d.%d.%d-4294967296",
+        "%d.%d.%d+l.18446744073709551616", "%d.%d.%d.rev3", "%d.%d.%dc2", "%d.%d.%d-PREVIEW.2", "v%d.%d.%d.dev0+local.7"]
 NUMS = [0, 1, 2, 3, 9, 10, 11, 20, 100]
 
 
 def rand_tag(rng):
     k = rng.random()
+    if k > 0.93:
+        tpl = rng.choice(EDGE)
+        return tpl % tuple(rng.choice(NUMS) for _ in range(tpl.count("%d")))
     pool = BOTH if k < 0.5 else SEMVER_ONLY if k < 0.62 else PEP_ONLY if k < 0.8 else NONVERSION
     tpl = rng.choice(pool)
     n = tpl.count("%d")
